@@ -648,41 +648,77 @@ def check_relocation(ctx, prog, name):
     if fam['relocators_exempt'] is None:
         return 0
     found = 0
-    for f in prog.functions:
-        if f.get('clsp') != fam['handle'] or f.get('implicit'):
-            continue
-        short = f['n']
-        relocs = []
+    members = [f for f in prog.functions if f.get('clsp') == fam['handle'] and not f.get('implicit') and f.get('body')]
+
+    def direct(f):
+        out = []
         for e in fn_exprs(f):
             if name == 'Array':
                 if e.get('k') == 'call' and (e.get('fn') in ('realloc', 'free') and not e.get('clsp')):
-                    relocs.append(e)
+                    out.append(e)
             elif name == 'HashMap':
                 # assignment / swap of the bucket array member
                 if e.get('k') == 'call' and e.get('pq') in ('asl::Array::operator=', 'asl::swap') and any(
                         x.get('k') == 'mem' and x.get('f') == 'a' and strip_lv(x.get('b', {})).get('k') == 'this' for x in walk_expr(e)):
-                    relocs.append(e)
-        if not relocs:
+                    out.append(e)
+        return out
+
+    def unguarded_of(f, relocs):
+        g = q.Guarded(f)
+        return [e for e in relocs if not any(is_unique_test(f, c, pol) for c, pol, kind in g.of(e) if kind in ('if', 'after', 'and', 'cond'))]
+
+    def callers_of(f):
+        return [g for g in members if g is not f and any(w.get('k') == 'call' and w.get('fn') == f.get('q') for w in fn_exprs(g))]
+
+    # a non-public member that replaces the block unguarded and is called from other members (grow() split out of insert()) is
+    # part of its callers: the call is their relocation site, decided (and reported) there, where a uniqueness test could stand
+    relocs = {id(f): direct(f) for f in members}
+    helper = {}
+    for _ in range(3):
+        grew = False
+        for f in members:
+            if id(f) in helper or f.get('acc') not in ('protected', 'private') or f['n'] in fam['relocators_exempt'] or f.get('kind') in ('ctor', 'dtor'):
+                continue
+            if not relocs[id(f)] or not unguarded_of(f, relocs[id(f)]):
+                continue
+            cs = callers_of(f)
+            if not cs:
+                continue
+            helper[id(f)] = f
+            for g in cs:
+                for w in fn_exprs(g):
+                    if w.get('k') == 'call' and w.get('fn') == f.get('q') and not any(w is x for x in relocs[id(g)]):
+                        relocs[id(g)].append(w)
+                        grew = True
+        if not grew:
+            break
+    for f in members:
+        short = f['n']
+        rl = relocs[id(f)]
+        if not rl:
             continue
         if short in fam['relocators_exempt'] or f.get('kind') in ('ctor', 'dtor'):
             continue
+        if id(f) in helper:
+            cs = callers_of(f)
+            if all(g['n'] in fam['relocators_exempt'] or g.get('kind') in ('ctor', 'dtor') for g in cs):
+                continue                                         # swapTable() behind operator= / dup(): their rules cover it
+            ctx.analysed(f)
+            continue                                             # decided at the call sites in the callers
         if f.get('acc') in ('protected', 'private'):
-            # a non-public helper that only the exempt members call (swapTable() behind operator= / dup()): their rules cover it
-            callers = [g for g in prog.functions if g.get('clsp') == fam['handle'] and g.get('body') and g is not f and
-                       any(w.get('k') == 'call' and w.get('fn') == f.get('q') for w in fn_exprs(g))]
-            if callers and all(g['n'] in fam['relocators_exempt'] or g.get('kind') in ('ctor', 'dtor') for g in callers):
+            cs = callers_of(f)
+            if cs and all(g['n'] in fam['relocators_exempt'] or g.get('kind') in ('ctor', 'dtor') for g in cs):
                 continue
         found += 1
         ctx.analysed(f)
-        g = q.Guarded(f)
-        unguarded = []
-        for e in relocs:
-            if not any(is_unique_test(f, c, pol) for c, pol, kind in g.of(e) if kind in ('if', 'after', 'and', 'cond')):
-                unguarded.append(e)
+        unguarded = unguarded_of(f, rl)
         if unguarded:
+            via = ''
+            if unguarded[0].get('clsp') == fam['handle'] and (unguarded[0].get('fn') or '') in [h.get('q') for h in helper.values()]:
+                via = ' through its helper %s' % (unguarded[0].get('pq') or unguarded[0].get('fn'))
             ctx.violation('R-RC.f', f['pq'], 'relocate-shared-storage', fwhere(f, unguarded[0]['l']),
-                          '%s replaces the storage block (%s) without a dominating `count == 1` test: other handles keep the old block (instantiation %s)'
-                          % (f['pq'], pe(unguarded[0]), f['q']))
+                          '%s replaces the storage block%s (%s) without a dominating `count == 1` test: other handles keep the old block (instantiation %s)'
+                          % (f['pq'], via, pe(unguarded[0]), f['q']))
         else:
             ctx.ok('R-RC.f', f['pq'], 'relocate-shared-storage', fwhere(f), 'storage replacement dominated by a uniqueness test')
     return found
